@@ -151,6 +151,44 @@ def _one_note_job(job):
     return acc
 
 
+def _clef_sweep_job(job):
+    """history in ONE process: one-note documents under every clef x octave mark, one after the other (in the given order) - a conversion remembered
+    from an earlier clef (same line, same mark, other shape; same shape, other mark; ...) must not leak into a later one"""
+    order, acc_txt = job
+    acc = Acc()
+    combos = [(b, mk) for b in CLEF_BASE for mk in MARKS]
+    if order == 'reversed':
+        combos.reverse()
+    elif order == 'by-mark':
+        combos.sort(key=lambda c: (c[1], c[0][1], c[0][0]))
+    for base, mark in combos:
+        ct = clef_text(base, mark)
+        bl = bottom_of(ct)
+        rows = [(letter, octave, '4' + R.spell(letter, 0, octave) + acc_txt) for octave in range(0, 9) for letter in R.LETTERS]
+        # two spines under two different clefs of the sweep in one document as well (the neighbour in the list)
+        text = '**kern\n' + ct + '\n' + '\n'.join(r[2] for r in rows) + '\n*-\n'
+        case = {'text': text, 'clef': ct, 'accidental': acc_txt, 'sweep': order}
+        acc.count('evaluations', len(rows))
+        acc.count('transitions', 2)
+        try:
+            doc, errs = kp.loads(text)
+            ak = kp.dumps(doc, encoding=E.agnosticKern).split('\n')
+            aek = kp.dumps(doc, encoding=E.agnosticExtendedKern).split('\n')
+        except Exception as e:  # noqa
+            acc.violation(Viol('clef-sequence-in-one-process', 'raises', case, None, f'{type(e).__name__}: {str(e)[:100]}'))
+            continue
+        acc.count('traces')
+        for (letter, octave, src), a, ae in zip(rows, ak[2:], aek[2:]):
+            exp = '4' + R.agnostic(letter, octave, bl[0], bl[1]) + acc_txt
+            acc.state(('sweep', base, mark, letter, octave))
+            if base != 'G2':
+                acc.nontriv(('sweep', order, base, mark, letter, octave, acc_txt))
+            if a != exp or ae.replace('@', '').replace('·', '') != exp:
+                acc.violation(Viol('clef-sequence-in-one-process', 'wrong-agnostic-pitch-after-other-clefs-were-exported', dict(case, note=src), exp, [a, ae]))
+                break
+    return acc
+
+
 # ---------------------------------------------------------------------------------------------------
 def menu(m, n, seed, cap):
     w = m.width()
@@ -252,6 +290,7 @@ def run(ctx):
                        'a note before any clef may raise ValueError but must not produce output']
     check_pitch_level(ctx)
     ctx.pmap(_one_note_job, [(b, mk) for b in CLEF_BASE for mk in (MARKS if not quick else ['', 'v', '^^'])], chunksize=1)
+    ctx.pmap(_clef_sweep_job, [(o, a) for o in ('listed', 'reversed', 'by-mark') for a in (('', '#') if quick else ('', '#', 'n', '--', '-y'))], chunksize=1)
     jobs = []
     for h, d in cfg:
         shorter, js = X.walk_jobs(h, d, seed, 4, menu, split_at=min(2, d))
@@ -268,6 +307,9 @@ def replay(case):
     if 'text' not in case:
         check_pitch_level(acc)
         return [v for v in acc.viol if v['case'].get('clef') == case.get('clef')] or acc.viol
+    if 'sweep' in case:
+        d = _clef_sweep_job((case['sweep'], case['accidental']))
+        return d.viol
     if 'accidental' in case:
         ct = case['clef']
         base = ct[5] + ct[-1]
